@@ -41,7 +41,7 @@ def call_work(inp):
     names = inp.get("names") or {c: c for c in inp["cands"]}
     inv = {v: k for k, v in names.items()}
     t = {"op": "pairwise", "cands": sorted(inp["cands"]), "bag": E._abstract_bag(inp["ballots"]), "dict": [], "tiers": [], "hascw": False,
-         "cw": "", "hascycles": False, "error": "", "_inp": inp}
+         "cw": "", "hascycles": False, "error": "", "h2h": [], "_inp": inp}
     try:
         with quiet():
             prof = E.build_profile(inp["cands"], inp["ballots"], names, inp.get("cand_order"))
@@ -53,7 +53,9 @@ def call_work(inp):
                   "tiers": lambda: [sorted(inv[c] for c in s) for s in g.dominating_tiers()],
                   "hascw": lambda: bool(g.has_condorcet_winner()),
                   "hascycles": lambda: bool(g.has_condorcet_cycles()),
-                  "cw": lambda: _cw(g, inv)}
+                  "cw": lambda: _cw(g, inv),
+                  "h2h": lambda: sorted([inv[a], inv[b], rat(g.head2head_count(a, b))] for a in names.values() for b in names.values() if a != b)
+                  if not inp.get("ballot_length") else []}
             order = list(qs) * 2
             random.Random(inp.get("qseed", 0)).shuffle(order)
             seen = {}
